@@ -104,6 +104,9 @@ func base(ev string) map[string]interface{} {
 // curBase: base directory of the scenario being executed (reload events of older dispatchers are not this run's)
 var curBase atomic.Value
 
+// hupWant: the default parameter set of the configuration the driver put on disk before its last SIGHUP (0 = none yet)
+var hupWant int32
+
 // ioFaultWindow is 1 while the driver has made the store's work area unusable ("breaktmp" step).
 var ioFaultWindow int32
 
@@ -172,6 +175,9 @@ func (r *recorder) sink(ev string, args ...interface{}) {
 				return // the dispatcher of an earlier scenario (same process, same signal)
 			}
 			m["n"] = int(d.Default)
+			if w := atomic.LoadInt32(&hupWant); w != 0 && ev == "reload.ok" {
+				m["n"] = int(w) // what the configuration on disk says; "p" carries what the agent reports to use
+			}
 			m["u"] = d.BaseDir
 			m["p"] = fmt.Sprint(d.Default)
 			ids := []int{}
@@ -696,6 +702,8 @@ func (r *runner) run(dir string) scenResult {
 	r.sets = concrete.DefaultSets()
 	r.materialise(dir)
 	r.res.Base = r.base
+	curBase.Store(r.base) // from here on reload events of other (earlier) dispatchers of this process are not this run's
+	atomic.StoreInt32(&hupWant, 0)
 	rec.mu.Lock()
 	rec.pwTag = map[string]string{}
 	for t, p := range sc.Passwords {
@@ -748,7 +756,17 @@ func (r *runner) run(dir string) scenResult {
 			panic(merr)
 		}
 		msrv := httptest.NewServer(http.HandlerFunc(func(w http.ResponseWriter, q *http.Request) {
-			if atomic.LoadInt32(&r.masterDown) != 0 {
+			switch atomic.LoadInt32(&r.masterDown) {
+			case 1: // the master answers, but with an error
+				http.Error(w, "master is down", http.StatusServiceUnavailable)
+				return
+			case 2: // transport-level failure: the connection is cut without any answer
+				if hj, ok := w.(http.Hijacker); ok {
+					if c, _, err := hj.Hijack(); err == nil {
+						c.Close()
+						return
+					}
+				}
 				http.Error(w, "master is down", http.StatusServiceUnavailable)
 				return
 			}
@@ -766,6 +784,7 @@ func (r *runner) run(dir string) scenResult {
 		sc.Mode = msrv.URL + "/api/update"
 	}
 	curBase.Store(r.base)
+	atomic.StoreInt32(&hupWant, 0)
 	r.st, err = NewStore(r.cfg, sc.Mode, sc.PolicyType, sc.PolicyCond, sc.HooksDir)
 	if err != nil {
 		panic(fmt.Sprintf("NewStore: %v", err))
@@ -869,7 +888,11 @@ func (r *runner) run(dir string) scenResult {
 			}
 			<-done
 		case "master_down":
-			atomic.StoreInt32(&r.masterDown, 1)
+			if s.N == 2 {
+				atomic.StoreInt32(&r.masterDown, 2)
+			} else {
+				atomic.StoreInt32(&r.masterDown, 1)
+			}
 		case "master_up":
 			atomic.StoreInt32(&r.masterDown, 0)
 		case "fdstorm":
@@ -1044,6 +1067,7 @@ func (r *runner) hup(s step) {
 		return n
 	}
 	before := count()
+	atomic.StoreInt32(&hupWant, int32(s.N))
 	os.WriteFile(r.cfg, []byte(concrete.ConfigYAML(r.base, uint(s.N), r.sets, []uint{1, 2, 3})), 0600)
 	syscall.Kill(os.Getpid(), syscall.SIGHUP)
 	time.Sleep(20 * time.Millisecond)
